@@ -1,1 +1,2028 @@
-//! (placeholder; filled in by the check that owns it)
+//! Generators of small synthetic dumps for processing (C14, C15, C19), the independent index
+//! model (who is the requesting thread, which context wins, crash reason / address case
+//! analysis), the bit-flip reference and an independent JSON parser + mechanised schema of
+//! `minidump-processor/json-schema.md`.
+//!
+//! Everything here is a pure function of a case index; nothing is random.
+use crate::core::{guard, PanicInfo, Tier};
+use minidump::Minidump;
+use minidump_common::format as md;
+use minidump_processor::{ProcessState, ProcessorOptions};
+use minidump_synth as synth;
+use scroll::{Pread, Pwrite, LE};
+use serde_json::{json, Value};
+use std::collections::{BTreeMap, HashMap};
+use std::sync::{Arc, OnceLock};
+use test_assembler::{Endian, Section};
+
+// =============================================================================================
+// error-name tables, read as DATA from the source text of minidump_common::errors
+// (`NAME = value,` lines inside `pub enum X { .. }`); the case analysis on top of them is
+// re-implemented independently below.
+
+pub struct ErrTables {
+    enums: BTreeMap<String, Vec<(String, i128)>>,
+}
+impl ErrTables {
+    pub fn name(&self, en: &str, v: i128) -> Option<&str> {
+        let e = self.enums.get(en).unwrap_or_else(|| panic!("procgen: no error table {en}"));
+        e.iter().find(|x| x.1 == v).map(|x| x.0.as_str())
+    }
+    pub fn value(&self, en: &str, name: &str) -> i128 {
+        let e = self.enums.get(en).unwrap_or_else(|| panic!("procgen: no error table {en}"));
+        e.iter().find(|x| x.0 == name).map(|x| x.1).unwrap_or_else(|| panic!("procgen: no {name} in {en}"))
+    }
+    pub fn entries(&self, en: &str) -> &[(String, i128)] {
+        self.enums.get(en).map(|v| v.as_slice()).unwrap_or_else(|| panic!("procgen: no error table {en}"))
+    }
+}
+fn parse_lit(s: &str) -> Option<i128> {
+    let mut s = s.trim().trim_end_matches(',').trim().to_string();
+    for suf in ["u32", "u64", "i32", "i64"] {
+        if let Some(x) = s.strip_suffix(suf) {
+            s = x.to_string();
+        }
+    }
+    let s = s.replace('_', "");
+    let (neg, s) = match s.strip_prefix('-') {
+        Some(r) => (true, r.to_string()),
+        None => (false, s),
+    };
+    let v = if let Some(h) = s.strip_prefix("0x") { i128::from_str_radix(h, 16).ok()? } else { s.parse::<i128>().ok()? };
+    Some(if neg { -v } else { v })
+}
+fn parse_tables(src: &str, out: &mut BTreeMap<String, Vec<(String, i128)>>) {
+    let mut cur: Option<String> = None;
+    for line in src.lines() {
+        let t = line.trim();
+        if let Some(r) = t.strip_prefix("pub enum ") {
+            let name: String = r.chars().take_while(|c| c.is_alphanumeric() || *c == '_').collect();
+            out.insert(name.clone(), vec![]);
+            cur = Some(name);
+            continue;
+        }
+        if line.starts_with('}') {
+            cur = None;
+            continue;
+        }
+        let Some(en) = &cur else { continue };
+        if t.starts_with("//") || t.starts_with('#') || t.is_empty() {
+            continue;
+        }
+        if let Some((id, rhs)) = t.split_once(" = ") {
+            if id.chars().all(|c| c.is_alphanumeric() || c == '_') {
+                let rhs = rhs.split("//").next().unwrap();
+                let v = parse_lit(rhs).unwrap_or_else(|| panic!("procgen: cannot read enum entry `{t}` of {en}"));
+                out.get_mut(en).unwrap().push((id.to_string(), v));
+            }
+        }
+    }
+}
+pub fn err_tables() -> &'static ErrTables {
+    static T: OnceLock<ErrTables> = OnceLock::new();
+    T.get_or_init(|| {
+        let mut m = BTreeMap::new();
+        parse_tables(include_str!("/repo/minidump-common/src/errors/windows.rs"), &mut m);
+        parse_tables(include_str!("/repo/minidump-common/src/errors/linux.rs"), &mut m);
+        parse_tables(include_str!("/repo/minidump-common/src/errors/macos.rs"), &mut m);
+        let t = ErrTables { enums: m };
+        // the text tables must agree with the compiled enums (spot checks; a mismatch is a harness error)
+        use minidump_common::errors as e;
+        assert_eq!(t.value("ExceptionCodeWindows", "EXCEPTION_ACCESS_VIOLATION"), e::ExceptionCodeWindows::EXCEPTION_ACCESS_VIOLATION as u32 as i128);
+        assert_eq!(t.value("ExceptionCodeWindows", "EXCEPTION_IN_PAGE_ERROR"), e::ExceptionCodeWindows::EXCEPTION_IN_PAGE_ERROR as u32 as i128);
+        assert_eq!(t.value("NtStatusWindows", "STATUS_STACK_BUFFER_OVERRUN"), e::NtStatusWindows::STATUS_STACK_BUFFER_OVERRUN as u32 as i128);
+        assert_eq!(t.value("ExceptionCodeLinux", "SIGSEGV"), e::ExceptionCodeLinux::SIGSEGV as u32 as i128);
+        assert_eq!(t.value("ExceptionCodeLinuxSicode", "SI_TKILL"), e::ExceptionCodeLinuxSicode::SI_TKILL as i32 as i128);
+        assert_eq!(t.value("ExceptionCodeMac", "EXC_GUARD"), e::ExceptionCodeMac::EXC_GUARD as u32 as i128);
+        assert_eq!(t.value("ExceptionCodeWindowsAccessType", "EXEC"), e::ExceptionCodeWindowsAccessType::EXEC as u64 as i128);
+        let n: usize = t.enums.values().map(|v| v.len()).sum();
+        assert!(n > 6000, "procgen: error tables incomplete ({n} entries)");
+        t
+    })
+}
+
+// =============================================================================================
+// CPU kinds (every context kind the reader knows, one it does not, and an unknown architecture)
+
+#[derive(Clone, Copy, Debug, PartialEq, Eq, Hash, PartialOrd, Ord)]
+pub enum CpuK {
+    X86,
+    X86Wow,
+    Amd64,
+    Arm,
+    Arm64,
+    Arm64Old,
+    Ppc,
+    Ppc64,
+    Sparc,
+    Mips,
+    Mips64,
+    Unknown,
+}
+pub const ALL_CPUS: [CpuK; 12] =
+    [CpuK::X86, CpuK::Amd64, CpuK::Arm64, CpuK::Arm, CpuK::Ppc64, CpuK::Mips64, CpuK::X86Wow, CpuK::Arm64Old, CpuK::Ppc, CpuK::Sparc, CpuK::Mips, CpuK::Unknown];
+
+fn zeroed_ctx<C>(f: impl FnOnce(&mut C)) -> Vec<u8>
+where
+    C: for<'a> scroll::ctx::TryFromCtx<'a, scroll::Endian, [u8], Error = scroll::Error> + scroll::ctx::TryIntoCtx<scroll::Endian, [u8], Error = scroll::Error> + scroll::ctx::SizeWith<scroll::Endian>,
+{
+    let n = C::size_with(&LE);
+    let mut b = vec![0u8; n];
+    let mut c: C = b.pread_with(0, LE).expect("procgen: zeroed context reads");
+    f(&mut c);
+    let w = b.pwrite_with(c, 0, LE).expect("procgen: context writes");
+    assert_eq!(w, n);
+    b
+}
+
+impl CpuK {
+    pub fn arch(self) -> u16 {
+        use md::ProcessorArchitecture::*;
+        (match self {
+            CpuK::X86 => PROCESSOR_ARCHITECTURE_INTEL,
+            CpuK::X86Wow => PROCESSOR_ARCHITECTURE_IA32_ON_WIN64,
+            CpuK::Amd64 => PROCESSOR_ARCHITECTURE_AMD64,
+            CpuK::Arm => PROCESSOR_ARCHITECTURE_ARM,
+            CpuK::Arm64 => PROCESSOR_ARCHITECTURE_ARM64,
+            CpuK::Arm64Old => PROCESSOR_ARCHITECTURE_ARM64_OLD,
+            CpuK::Ppc => PROCESSOR_ARCHITECTURE_PPC,
+            CpuK::Ppc64 => PROCESSOR_ARCHITECTURE_PPC64,
+            CpuK::Sparc => PROCESSOR_ARCHITECTURE_SPARC,
+            CpuK::Mips => PROCESSOR_ARCHITECTURE_MIPS,
+            CpuK::Mips64 => PROCESSOR_ARCHITECTURE_MIPS64,
+            CpuK::Unknown => return 0x7777,
+        }) as u16
+    }
+    /// documented pointer width (system_info.rs `pointer_width`): None = unknown
+    pub fn bits(self) -> Option<u32> {
+        match self {
+            CpuK::X86 | CpuK::X86Wow | CpuK::Arm | CpuK::Ppc | CpuK::Sparc | CpuK::Mips => Some(32),
+            CpuK::Amd64 | CpuK::Arm64 | CpuK::Arm64Old | CpuK::Ppc64 | CpuK::Mips64 => Some(64),
+            CpuK::Unknown => None,
+        }
+    }
+    /// the `cpu_arch` string of the JSON schema
+    pub fn json_name(self) -> &'static str {
+        match self {
+            CpuK::X86 | CpuK::X86Wow => "x86",
+            CpuK::Amd64 => "amd64",
+            CpuK::Arm => "arm",
+            CpuK::Arm64 | CpuK::Arm64Old => "arm64",
+            CpuK::Ppc => "ppc",
+            CpuK::Ppc64 => "ppc64",
+            CpuK::Sparc => "sparc",
+            CpuK::Mips => "mips",
+            CpuK::Mips64 => "mips64",
+            CpuK::Unknown => "unknown",
+        }
+    }
+    /// family used by the Mac exception refinements (documented on the `*ArmType`, `*PpcType`,
+    /// `*X86Type` tables)
+    pub fn mac_family(self) -> Option<&'static str> {
+        match self {
+            CpuK::Arm64 | CpuK::Arm64Old => Some("Arm"),
+            CpuK::Ppc => Some("Ppc"),
+            CpuK::X86 | CpuK::X86Wow | CpuK::Amd64 => Some("X86"),
+            _ => None,
+        }
+    }
+    pub fn has_context(self) -> bool {
+        !matches!(self, CpuK::Mips64 | CpuK::Unknown)
+    }
+    pub fn mask(self, v: u64) -> u64 {
+        if self.bits() == Some(32) {
+            v & 0xffff_ffff
+        } else {
+            v
+        }
+    }
+    /// bytes of a readable CPU context with the given instruction and stack pointer
+    pub fn context(self, ip: u64, sp: u64) -> Option<Vec<u8>> {
+        let e = Endian::Little;
+        Some(match self {
+            CpuK::X86 | CpuK::X86Wow => synth::x86_context(e, ip as u32, sp as u32).get_contents().unwrap(),
+            CpuK::Amd64 => synth::amd64_context(e, ip, sp).get_contents().unwrap(),
+            CpuK::Arm64 => synth::arm64_context(e, ip, sp).get_contents().unwrap(),
+            CpuK::Arm => zeroed_ctx::<md::CONTEXT_ARM>(|c| {
+                c.context_flags = 0x4000_0002;
+                c.iregs[13] = sp as u32;
+                c.iregs[15] = ip as u32;
+            }),
+            CpuK::Arm64Old => zeroed_ctx::<md::CONTEXT_ARM64_OLD>(|c| {
+                c.context_flags = 0x8000_0002;
+                c.sp = sp;
+                c.pc = ip;
+            }),
+            CpuK::Ppc => zeroed_ctx::<md::CONTEXT_PPC>(|c| {
+                c.context_flags = 0x2000_0001;
+                c.srr0 = ip as u32;
+                c.gpr[1] = sp as u32;
+            }),
+            CpuK::Ppc64 => zeroed_ctx::<md::CONTEXT_PPC64>(|c| {
+                c.context_flags = 0x0100_0001;
+                c.srr0 = ip;
+                c.gpr[1] = sp;
+            }),
+            CpuK::Sparc => zeroed_ctx::<md::CONTEXT_SPARC>(|c| {
+                c.context_flags = 0x1000_0001;
+                c.pc = ip;
+                c.g_r[14] = sp;
+            }),
+            CpuK::Mips => zeroed_ctx::<md::CONTEXT_MIPS>(|c| {
+                c.context_flags = 0x0004_0001;
+                c.epc = ip;
+                c.iregs[29] = sp;
+            }),
+            CpuK::Mips64 | CpuK::Unknown => return None,
+        })
+    }
+}
+
+// =============================================================================================
+// operating systems
+
+#[derive(Clone, Copy, Debug, PartialEq, Eq, Hash)]
+pub enum OsK {
+    Windows,
+    Mac,
+    Ios,
+    Linux,
+    Android,
+    Solaris,
+    Ps3,
+    NaCl,
+    Unknown,
+}
+/// (platform id, documented meaning). Two ids mean Windows; three ids are not known systems.
+pub fn all_platforms() -> Vec<(u32, OsK)> {
+    use md::PlatformId as P;
+    vec![
+        (P::VER_PLATFORM_WIN32_NT as u32, OsK::Windows),
+        (P::Linux as u32, OsK::Linux),
+        (P::MacOs as u32, OsK::Mac),
+        (0x9999, OsK::Unknown),
+        (P::VER_PLATFORM_WIN32_WINDOWS as u32, OsK::Windows),
+        (P::Android as u32, OsK::Android),
+        (P::Ios as u32, OsK::Ios),
+        (P::Solaris as u32, OsK::Solaris),
+        (P::Ps3 as u32, OsK::Ps3),
+        (P::NaCl as u32, OsK::NaCl),
+        (0, OsK::Unknown),
+        (P::Unix as u32, OsK::Unknown),
+    ]
+}
+pub fn os_of(platform_id: u32) -> OsK {
+    all_platforms().into_iter().find(|p| p.0 == platform_id).map(|p| p.1).unwrap_or(OsK::Unknown)
+}
+impl OsK {
+    /// the `system_info.os` names listed by json-schema.md
+    pub fn json_name(self) -> Option<&'static str> {
+        Some(match self {
+            OsK::Windows => "Windows NT",
+            OsK::Mac => "Mac OS X",
+            OsK::Ios => "iOS",
+            OsK::Linux => "Linux",
+            OsK::Android => "Android",
+            OsK::Solaris => "Solaris",
+            OsK::Ps3 => "PS3",
+            OsK::NaCl => "NaCl",
+            OsK::Unknown => return None,
+        })
+    }
+}
+
+// =============================================================================================
+// dump model and its serialisation through minidump-synth
+
+#[derive(Clone, Debug)]
+pub struct ThreadM {
+    pub tid: u32,
+    pub ctx_ok: bool,
+    pub ip: u64,
+    pub sp: u64,
+}
+#[derive(Clone, Debug)]
+pub struct ExcM {
+    pub tid: u32,
+    pub code: u32,
+    pub flags: u32,
+    pub address: u64,
+    pub nparams: u32,
+    pub info: [u64; 15],
+    /// 0 = no context location, 1 = readable context, 2 = 40 bytes of garbage
+    pub ctx: u8,
+    pub ctx_ip: u64,
+    pub ctx_sp: u64,
+}
+#[derive(Clone, Debug)]
+pub struct BpM {
+    pub validity: u32,
+    pub dump_tid: u32,
+    pub req_tid: u32,
+}
+#[derive(Clone, Debug)]
+pub struct ModM {
+    pub base: u64,
+    pub size: u32,
+    pub name: String,
+}
+#[derive(Clone, Debug)]
+pub enum MapsM {
+    None,
+    /// (base, size, protection) as a MemoryInfoList
+    Info(Vec<(u64, u64, u32)>),
+    /// (first, last (inclusive, as minidump.rs documents its reading), perms "rwx" subset) as LinuxMaps
+    Linux(Vec<(u64, u64, &'static str)>),
+}
+#[derive(Clone, Debug)]
+pub struct MiscM {
+    pub pid: Option<u32>,
+    pub create_time: Option<u32>,
+}
+#[derive(Clone, Debug)]
+pub struct Model {
+    pub cpu: CpuK,
+    pub platform_id: u32,
+    pub threads: Vec<ThreadM>,
+    /// one name entry per distinct thread id
+    pub thread_names: Vec<(u32, String)>,
+    pub exc: Option<ExcM>,
+    pub bp: Option<BpM>,
+    pub modules: Vec<ModM>,
+    pub unloaded: Vec<ModM>,
+    pub maps: MapsM,
+    pub misc: Option<MiscM>,
+    pub status: Option<Vec<u8>>,
+    /// `/etc/lsb-release` stream (bytes: may be invalid UTF-8, the processor decodes lossily)
+    pub lsb: Option<Vec<u8>>,
+    /// extra memory region (instruction bytes)
+    pub code: Option<(u64, Vec<u8>)>,
+    /// symbol files by module name (bytes: may be invalid UTF-8)
+    pub syms: Vec<(String, Vec<u8>)>,
+}
+pub const HEADER_TIME: u64 = 1262805309; // fixed by minidump-synth
+pub const STACK_BASE: u64 = 0x7000_0000;
+
+impl Model {
+    pub fn new(cpu: CpuK, platform_id: u32) -> Model {
+        Model { cpu, platform_id, threads: vec![], thread_names: vec![], exc: None, bp: None, modules: vec![], unloaded: vec![], maps: MapsM::None, misc: None, status: None, lsb: None, code: None, syms: vec![] }
+    }
+    pub fn os(&self) -> OsK {
+        os_of(self.platform_id)
+    }
+    pub fn thread(&mut self, tid: u32, ctx_ok: bool) {
+        let i = self.threads.len() as u64;
+        self.threads.push(ThreadM { tid, ctx_ok, ip: 0x4000_1000 + 0x10 * i, sp: STACK_BASE + 0x1000 * i });
+    }
+    pub fn dump_tid(&self) -> Option<u32> {
+        self.bp.as_ref().and_then(|b| if b.validity & 1 != 0 { Some(b.dump_tid) } else { None })
+    }
+    pub fn req_tid(&self) -> Option<u32> {
+        self.bp.as_ref().and_then(|b| if b.validity & 2 != 0 { Some(b.req_tid) } else { None })
+    }
+    /// the thread id that names the requesting thread: exception record first, else Breakpad info
+    pub fn target_tid(&self) -> Option<u32> {
+        self.exc.as_ref().map(|x| x.tid).or(self.req_tid())
+    }
+    pub fn requesting_candidates(&self) -> Vec<usize> {
+        let t = self.target_tid();
+        (0..self.threads.len()).filter(|&i| Some(self.threads[i].tid) == t && self.dump_tid() != Some(self.threads[i].tid)).collect()
+    }
+    pub fn thread_ctx_readable(&self, i: usize) -> bool {
+        self.threads[i].ctx_ok && self.cpu.has_context()
+    }
+    pub fn exc_ctx_readable(&self) -> bool {
+        self.exc.as_ref().is_some_and(|x| x.ctx == 1) && self.cpu.has_context()
+    }
+    pub fn name_of(&self, tid: u32) -> Option<&str> {
+        self.thread_names.iter().find(|n| n.0 == tid).map(|n| n.1.as_str())
+    }
+    pub fn summary(&self) -> Value {
+        let mut s = format!("{self:?}");
+        if s.len() > 1800 {
+            let mut cut = 1800;
+            while !s.is_char_boundary(cut) {
+                cut -= 1;
+            }
+            s.truncate(cut);
+            s.push_str("...");
+        }
+        json!(s)
+    }
+}
+
+fn bytes_section(b: &[u8]) -> Section {
+    Section::with_endian(Endian::Little).append_bytes(b)
+}
+
+pub fn build(m: &Model) -> Vec<u8> {
+    let e = Endian::Little;
+    let mut d = synth::SynthMinidump::with_endian(e);
+    // the exception context goes first, so its RVA is the header size (the synth Exception
+    // takes a constant location)
+    let (ctx_size, ctx_rva) = match &m.exc {
+        Some(x) if x.ctx == 1 => {
+            let b = m.cpu.context(x.ctx_ip, x.ctx_sp).unwrap_or_else(|| vec![0xAB; 64]);
+            let n = b.len() as u32;
+            d = d.add(bytes_section(&b));
+            (n, 32u32)
+        }
+        Some(x) if x.ctx == 2 => {
+            d = d.add(bytes_section(&[0xAB; 40]));
+            (40, 32)
+        }
+        _ => (0, 0),
+    };
+    d = d.add_system_info(synth::SystemInfo::new(e).set_processor_architecture(m.cpu.arch()).set_platform_id(m.platform_id));
+    for (i, t) in m.threads.iter().enumerate() {
+        let stack = synth::Memory::with_section(Section::with_endian(e).append_repeated(0, 64), STACK_BASE + 0x1000 * i as u64);
+        let cb = if t.ctx_ok { m.cpu.context(t.ip, t.sp) } else { None }.unwrap_or_else(|| vec![0xCD; 24]);
+        let ctx = bytes_section(&cb);
+        let th = synth::Thread::new(e, t.tid, &stack, &ctx);
+        d = d.add_thread(th).add_memory(stack).add(ctx);
+    }
+    if m.threads.is_empty() {
+        // minidump-synth leaves an empty list out; a present-but-empty thread list is the case wanted
+        d = d.add_stream(synth::SimpleStream { stream_type: md::MINIDUMP_STREAM_TYPE::ThreadListStream as u32, section: Section::with_endian(e).D32(0) });
+    }
+    for (tid, n) in &m.thread_names {
+        let s = synth::DumpString::new(n, e);
+        d = d.add_thread_name(synth::ThreadName::new(e, *tid, Some(&s))).add(s);
+    }
+    for md_ in &m.modules {
+        let name = synth::DumpString::new(&md_.name, e);
+        d = d.add_module(synth::Module::new(e, md_.base, md_.size, &name, 0x1234, 0, None)).add(name);
+    }
+    for md_ in &m.unloaded {
+        let name = synth::DumpString::new(&md_.name, e);
+        d = d.add_unloaded_module(synth::UnloadedModule::new(e, md_.base, md_.size, &name, 0x1234, 0)).add(name);
+    }
+    if let Some((addr, bytes)) = &m.code {
+        d = d.add_memory(synth::Memory::with_section(bytes_section(bytes), *addr));
+    }
+    if let Some(x) = &m.exc {
+        let mut ex = synth::Exception::new(e);
+        ex.thread_id = x.tid;
+        ex.exception_record.exception_code = x.code;
+        ex.exception_record.exception_flags = x.flags;
+        ex.exception_record.exception_address = x.address;
+        ex.exception_record.number_parameters = x.nparams;
+        ex.exception_record.exception_information = x.info;
+        ex.thread_context = (ctx_size, ctx_rva);
+        d = d.add_exception(ex);
+    }
+    if let Some(b) = &m.bp {
+        d = d.add_stream(synth::SimpleStream { stream_type: md::MINIDUMP_STREAM_TYPE::BreakpadInfoStream as u32, section: Section::with_endian(e).D32(b.validity).D32(b.dump_tid).D32(b.req_tid) });
+    }
+    match &m.maps {
+        MapsM::None => {}
+        MapsM::Info(rs) => {
+            for &(b, s, prot) in rs {
+                d = d.add_memory_info(synth::MemoryInfo::new(e, b, b, prot, s, 0x1000, prot, 0x20000));
+            }
+        }
+        MapsM::Linux(rs) => {
+            let mut t = String::new();
+            for (i, &(a, z, p)) in rs.iter().enumerate() {
+                let perm: String = ['r', 'w', 'x'].iter().map(|c| if p.contains(*c) { *c } else { '-' }).collect();
+                t.push_str(&format!("{a:x}-{z:x} {perm}p 00000000 00:00 0 /map{i}\n"));
+            }
+            d = d.set_linux_maps(t.as_bytes());
+        }
+    }
+    if let Some(mi) = &m.misc {
+        let mut s = synth::MiscStream::new(e);
+        s.process_id = mi.pid;
+        s.process_times = mi.create_time.map(|t| synth::MiscFieldsProcessTimes { process_create_time: t, process_user_time: 3, process_kernel_time: 4 });
+        d = d.add_stream(s);
+    }
+    if let Some(st) = &m.status {
+        d = d.set_linux_proc_status(st);
+    }
+    if let Some(b) = &m.lsb {
+        d = d.set_linux_lsb_release(b);
+    }
+    d.finish().expect("procgen: synth dump finishes")
+}
+
+// ---------------------------------------------------------------------------------------------
+// processing through the public end-to-end path
+
+/// Symbol supplier over in-memory bytes (like `string_symbol_supplier`, but the file may be
+/// invalid UTF-8 so that lossy-decoded names reach the JSON writer).
+pub struct BytesSupplier {
+    pub files: HashMap<String, Vec<u8>>,
+}
+#[async_trait::async_trait]
+impl breakpad_symbols::SymbolSupplier for BytesSupplier {
+    async fn locate_symbols(&self, module: &(dyn breakpad_symbols::Module + Sync)) -> Result<breakpad_symbols::LocateSymbolsResult, breakpad_symbols::SymbolError> {
+        match self.files.get(&*module.code_file()) {
+            Some(b) => Ok(breakpad_symbols::LocateSymbolsResult { symbols: breakpad_symbols::SymbolFile::from_bytes(b)?, extra_debug_info: None }),
+            None => Err(breakpad_symbols::SymbolError::NotFound),
+        }
+    }
+    async fn locate_file(&self, _m: &(dyn breakpad_symbols::Module + Sync), _k: breakpad_symbols::FileKind) -> Result<std::path::PathBuf, breakpad_symbols::FileError> {
+        Err(breakpad_symbols::FileError::NotFound)
+    }
+}
+
+pub enum Proc {
+    Ok(Box<ProcessState>),
+    /// `Minidump::read` refused the generated bytes (generator error unless the model says so)
+    ReadErr(String),
+    ProcessErr(String),
+    Panic(PanicInfo),
+}
+
+thread_local! {
+    static RT: tokio::runtime::Runtime = tokio::runtime::Builder::new_current_thread().build().expect("procgen: tokio runtime");
+}
+
+pub fn process_model(m: &Model) -> Proc {
+    let bytes = build(m);
+    process_bytes(&bytes, &m.syms)
+}
+pub fn process_bytes(bytes: &[u8], syms: &[(String, Vec<u8>)]) -> Proc {
+    let dump = match Minidump::read(bytes) {
+        Ok(d) => d,
+        Err(e) => return Proc::ReadErr(format!("{e}")),
+    };
+    let r = guard(|| {
+        RT.with(|rt| {
+            if syms.is_empty() {
+                let p = minidump_unwind::Symbolizer::new(minidump_unwind::string_symbol_supplier(HashMap::new()));
+                rt.block_on(minidump_processor::process_minidump_with_options(&dump, &p, ProcessorOptions::default()))
+            } else {
+                let p = minidump_unwind::Symbolizer::new(BytesSupplier { files: syms.iter().cloned().collect() });
+                rt.block_on(minidump_processor::process_minidump_with_options(&dump, &p, ProcessorOptions::default()))
+            }
+        })
+    });
+    match r {
+        Ok(Ok(s)) => Proc::Ok(Box::new(s)),
+        Ok(Err(e)) => Proc::ProcessErr(format!("{e}")),
+        Err(p) => Proc::Panic(p),
+    }
+}
+
+// =============================================================================================
+// reference: crash address and crash reason (independent re-statement of the documented case
+// analysis; only the name tables are shared, as data)
+
+/// Documented on `MinidumpException::get_crash_address`: the exception address, except that
+/// Windows access violations and in-page errors carry the data address in parameter 1 (which
+/// exists when there are at least two parameters); 32-bit CPUs zero-extend.
+pub fn expected_crash_address(os: OsK, cpu: CpuK, x: &ExcM) -> u64 {
+    let t = err_tables();
+    let av = t.value("ExceptionCodeWindows", "EXCEPTION_ACCESS_VIOLATION") as u32;
+    let ipe = t.value("ExceptionCodeWindows", "EXCEPTION_IN_PAGE_ERROR") as u32;
+    let a = if os == OsK::Windows && (x.code == av || x.code == ipe) && x.nparams >= 2 { x.info[1] } else { x.address };
+    cpu.mask(a)
+}
+
+#[derive(Clone, Debug, PartialEq)]
+pub enum ReasonExp {
+    /// the reason renders as exactly one of these
+    OneOf(Vec<String>),
+    /// family and type are decided, the trailing detail text is not re-derived
+    Prefix(String),
+}
+impl ReasonExp {
+    pub fn accepts(&self, s: &str) -> bool {
+        match self {
+            ReasonExp::OneOf(v) => v.iter().any(|x| x == s),
+            ReasonExp::Prefix(p) => s.starts_with(p.as_str()),
+        }
+    }
+}
+fn one(s: String) -> ReasonExp {
+    ReasonExp::OneOf(vec![s])
+}
+
+pub fn expected_reason(os: OsK, cpu: CpuK, x: &ExcM) -> ReasonExp {
+    let t = err_tables();
+    let unknown = || one(format!("unknown {:#010x} / {:#010x}", x.code, x.flags));
+    match os {
+        OsK::Windows => {
+            let code = x.code as i128;
+            if let Some(n) = t.name("ExceptionCodeWindows", code) {
+                return one(match n {
+                    "EXCEPTION_ACCESS_VIOLATION" => match t.name("ExceptionCodeWindowsAccessType", x.info[0] as i128) {
+                        Some(ty) if x.nparams >= 1 => format!("EXCEPTION_ACCESS_VIOLATION_{ty}"),
+                        _ => n.to_string(),
+                    },
+                    "EXCEPTION_IN_PAGE_ERROR" => match t.name("ExceptionCodeWindowsInPageErrorType", x.info[0] as i128) {
+                        Some(ty) if x.nparams >= 3 => {
+                            let st = x.info[2] & 0xffff_ffff;
+                            let sn = t.name("NtStatusWindows", st as i128).map(|s| s.to_string()).unwrap_or(format!("{st:#010x}"));
+                            format!("EXCEPTION_IN_PAGE_ERROR_{ty} / {sn}")
+                        }
+                        _ => n.to_string(),
+                    },
+                    "OUT_OF_MEMORY" => "Out of Memory".into(),
+                    "UNHANDLED_CPP_EXCEPTION" => "Unhandled C++ Exception".into(),
+                    "SIMULATED" => "Simulated Exception".into(),
+                    _ => n.to_string(),
+                });
+            }
+            if let Some(n) = t.name("WinErrorWindows", code) {
+                return one(n.to_string());
+            }
+            if let Some(n) = t.name("NtStatusWindows", code) {
+                if n == "STATUS_STACK_BUFFER_OVERRUN" && x.nparams >= 1 {
+                    let ff = x.info[0] & 0xffff_ffff;
+                    let fname = t.name("FastFailCode", ff as i128).map(|s| s.to_string()).unwrap_or(format!("{ff:#010x}"));
+                    return one(format!("EXCEPTION_STACK_BUFFER_OVERRUN / {fname}"));
+                }
+                return one(n.to_string());
+            }
+            if x.code & 0xf000_0000 != 0 {
+                if let (Some(f), Some(w)) = (t.name("WinErrorFacilityWindows", ((x.code & 0x0fff_0000) >> 16) as i128), t.name("WinErrorWindows", (x.code & 0xffff) as i128)) {
+                    return one(format!("{f} / {w}"));
+                }
+            }
+            one(format!("unknown {:#010x}", x.code))
+        }
+        OsK::Mac | OsK::Ios => {
+            let Some(n) = t.name("ExceptionCodeMac", x.code as i128) else { return unknown() };
+            let general = if n == "SIMULATED" { "Simulated Exception".to_string() } else { format!("{n} / {:#010x}", x.flags) };
+            let fl = x.flags as i128;
+            let by_cpu = |stem: &str, label: &str| -> ReasonExp {
+                // refinement tables exist per CPU family; which CPUs of a family use them is not
+                // documented beyond the table names, so for CPUs outside {arm64, ppc, x86, amd64}
+                // either rendering is accepted when a sibling table knows the flag value
+                match cpu.mac_family() {
+                    Some(f) => match t.name(&format!("ExceptionCodeMac{stem}{f}Type"), fl) {
+                        Some(k) => one(format!("{label} / {k}")),
+                        None => one(general.clone()),
+                    },
+                    None => {
+                        let mut v = vec![general.clone()];
+                        let fam = match cpu {
+                            CpuK::Arm => Some("Arm"),
+                            CpuK::Ppc64 => Some("Ppc"),
+                            _ => None,
+                        };
+                        if let Some(f) = fam {
+                            if let Some(k) = t.name(&format!("ExceptionCodeMac{stem}{f}Type"), fl) {
+                                v.push(format!("{label} / {k}"));
+                            }
+                        }
+                        ReasonExp::OneOf(v)
+                    }
+                }
+            };
+            match n {
+                "EXC_BAD_ACCESS" => match t.name("ExceptionCodeMacBadAccessKernType", fl) {
+                    Some(k) => one(format!("EXC_BAD_ACCESS / {k}")),
+                    None => by_cpu("BadAccess", "EXC_BAD_ACCESS"),
+                },
+                "EXC_BAD_INSTRUCTION" => by_cpu("BadInstruction", "EXC_BAD_INSTRUCTION"),
+                "EXC_ARITHMETIC" => by_cpu("Arithmetic", "EXC_ARITHMETIC"),
+                "EXC_BREAKPOINT" => by_cpu("Breakpoint", "EXC_BREAKPOINT"),
+                "EXC_SOFTWARE" => match t.name("ExceptionCodeMacSoftwareType", fl) {
+                    Some(k) => one(format!("EXC_SOFTWARE / {k}")),
+                    None => one(general),
+                },
+                "EXC_RESOURCE" => match t.name("ExceptionCodeMacResourceType", ((x.flags >> 29) & 7) as i128) {
+                    Some(k) => ReasonExp::Prefix(format!("EXC_RESOURCE / {k} / ")),
+                    None => one(general),
+                },
+                "EXC_GUARD" => match t.name("ExceptionCodeMacGuardType", ((x.flags >> 29) & 7) as i128) {
+                    Some(k) => ReasonExp::Prefix(format!("EXC_GUARD / {k}")),
+                    None => one(general),
+                },
+                _ => one(general),
+            }
+        }
+        OsK::Linux | OsK::Android => {
+            let Some(sig) = t.name("ExceptionCodeLinux", x.code as i128) else { return unknown() };
+            let kind = match sig {
+                "SIGILL" => Some("ExceptionCodeLinuxSigillKind"),
+                "SIGTRAP" => Some("ExceptionCodeLinuxSigtrapKind"),
+                "SIGFPE" => Some("ExceptionCodeLinuxSigfpeKind"),
+                "SIGSEGV" => Some("ExceptionCodeLinuxSigsegvKind"),
+                "SIGBUS" => Some("ExceptionCodeLinuxSigbusKind"),
+                "SIGSYS" => Some("ExceptionCodeLinuxSigsysKind"),
+                _ => None,
+            };
+            if let Some(k) = kind.and_then(|k| t.name(k, x.flags as i128)) {
+                return one(format!("{sig} / {k}"));
+            }
+            match t.name("ExceptionCodeLinuxSicode", x.flags as i32 as i128) {
+                Some("SI_USER") => one(sig.to_string()),
+                Some(si) => one(format!("{sig} / {si}")),
+                None => one(format!("{sig} / {:#010x}", x.flags)),
+            }
+        }
+        _ => unknown(),
+    }
+}
+
+/// which access the crash reason names (processor.rs `MemoryOperation::from_crash_reason`)
+#[derive(Clone, Copy, Debug, PartialEq, Eq)]
+pub enum MemOp {
+    Any,
+    Read,
+    Write,
+    Exec,
+}
+pub fn mem_op_of_reason(reason: &str) -> MemOp {
+    match reason {
+        "EXCEPTION_ACCESS_VIOLATION_READ" => MemOp::Read,
+        "EXCEPTION_ACCESS_VIOLATION_WRITE" => MemOp::Write,
+        "EXCEPTION_ACCESS_VIOLATION_EXEC" => MemOp::Exec,
+        _ => MemOp::Any,
+    }
+}
+impl MapsM {
+    /// (first, last inclusive, readable, writable, executable) of every mapped region, by the
+    /// documented reading of each stream
+    pub fn regions(&self) -> Vec<(u64, u64, bool, bool, bool)> {
+        match self {
+            MapsM::None => vec![],
+            MapsM::Info(v) => v
+                .iter()
+                .filter_map(|&(b, s, p)| {
+                    if s == 0 {
+                        return None;
+                    }
+                    let end = b.checked_add(s)? - 1;
+                    // PAGE_* bits as documented on MinidumpMemoryInfo::is_{readable,writable,executable}
+                    Some((b, end, p & (0x02 | 0x04 | 0x20 | 0x40) != 0, p & (0x04 | 0x08 | 0x40 | 0x80) != 0, p & (0x10 | 0x20 | 0x40 | 0x80) != 0))
+                })
+                .collect(),
+            MapsM::Linux(v) => v.iter().filter(|r| r.0 <= r.1).map(|&(a, z, p)| (a, z, p.contains('r'), p.contains('w'), p.contains('x'))).collect(),
+        }
+    }
+    pub fn permits(&self, addr: u64, op: MemOp) -> bool {
+        self.regions().iter().any(|&(a, z, r, w, x)| {
+            a <= addr
+                && addr <= z
+                && match op {
+                    MemOp::Any => true,
+                    MemOp::Read => r,
+                    MemOp::Write => w,
+                    MemOp::Exec => x,
+                }
+        })
+    }
+}
+
+// =============================================================================================
+// case spaces (index -> Model), shared by C14 / C15 / C19
+
+#[derive(Clone)]
+pub struct Gen {
+    pub name: &'static str,
+    pub len: u64,
+    pub model: Arc<dyn Fn(u64) -> Model + Send + Sync>,
+}
+impl Gen {
+    pub fn describe(&self) -> impl Fn(u64) -> Value + Send + Sync + 'static {
+        let g = self.clone();
+        move |idx| json!({"class": g.name, "model": (g.model)(idx).summary()})
+    }
+}
+
+pub const APP_BASE: u64 = 0x4000_0000;
+pub fn app_module() -> ModM {
+    ModM { base: APP_BASE, size: 0x10000, name: "c:\\dir\\app.exe".into() }
+}
+
+/// One exception record of the menu: (code, flags, number_parameters, information[0..3])
+pub type Rec = (u32, u32, u32, [u64; 3]);
+
+/// The exception-record menu per operating system: every refined family, the codes just outside
+/// each enumeration, parameter counts 0,1,2,3,15,16 and access types {0,1,8,2,unknown}.
+pub fn exc_menu(os: OsK) -> Vec<Rec> {
+    let t = err_tables();
+    let mut v: Vec<Rec> = vec![];
+    match os {
+        OsK::Windows => {
+            // a facility-coded HRESULT that no table lists by itself
+            let fac = t.entries("WinErrorWindows").iter().filter(|e| e.1 > 0 && e.1 < 0x10000).map(|e| 0x8007_0000u32 | (e.1 as u32 & 0xffff)).find(|c| e_unlisted(t, *c)).expect("procgen: a facility-coded value");
+            let codes: [u32; 15] = [fac, 0xC000_0005, 0xC000_0006, 0xC000_0409, 5, 0xC000_0017, 0x8007_0005, 0xE000_0008, 0xE06D_7363, 0x0517_A7ED, 0xC000_0094, 0x1234_5678, 0xC000_0004, 0xC000_0007, 0xFFFF_FFFF];
+            let infos: [[u64; 3]; 5] = [[0, 0x20800, 0xC000_009A], [1, 0x20800, 0xFFFF_FFFF_C000_009A], [8, 0x20800, 0x7], [2, 0x20800, 0x5], [0xFFFF_FFFF, 0xFFFF_FFFF_0002_0800, 0xC000_0005]];
+            for c in codes {
+                for np in [0u32, 1, 2, 3, 15, 16] {
+                    for i in infos {
+                        v.push((c, 0, np, i));
+                    }
+                }
+            }
+        }
+        OsK::Mac | OsK::Ios => {
+            let mut codes: Vec<u32> = (0..=14).collect();
+            codes.push(t.value("ExceptionCodeMac", "SIMULATED") as u32);
+            codes.push(0x1234_5678);
+            let flags: [u32; 14] = [0, 1, 2, 13, 0x101, 0x102, 0x10003, 3, (1 << 29) | 5, 2 << 29, 5 << 29, 6 << 29, 7 << 29, 0xFFFF_FFFF];
+            for c in codes {
+                for f in flags {
+                    v.push((c, f, 3, [0x11, (1u64 << 58) | (5 << 7) | 3, 0x2_0000_0007]));
+                }
+            }
+        }
+        OsK::Linux | OsK::Android => {
+            let mut codes: Vec<u32> = (0..=32).collect();
+            codes.push(0xFFFF_FFFF);
+            codes.push(0x1234_5678);
+            let flags: [u32; 10] = [0, 1, 2, 8, 9, 0x80, 0xFFFF_FFFA, 0xFFFF_FFC4, 0x1234, 0xFFFF_FFFF];
+            for c in codes {
+                for f in flags {
+                    v.push((c, f, 0, [0, 0, 0]));
+                }
+            }
+        }
+        _ => {
+            for c in [0xC000_0005u32, 11, 1, 0] {
+                for f in [0u32, 1, 0x80] {
+                    v.push((c, f, 2, [1, 0x20800, 0]));
+                }
+            }
+        }
+    }
+    v
+}
+fn e_unlisted(t: &ErrTables, c: u32) -> bool {
+    ["ExceptionCodeWindows", "WinErrorWindows", "NtStatusWindows"].iter().all(|en| t.name(en, c as i128).is_none())
+}
+fn exc_of(rec: Rec, tid: u32, address: u64, ctx: u8) -> ExcM {
+    let mut info = [0u64; 15];
+    info[..3].copy_from_slice(&rec.3);
+    info[14] = 0xE;
+    ExcM { tid, code: rec.0, flags: rec.1, address, nparams: rec.2, info, ctx, ctx_ip: APP_BASE + 0x2222, ctx_sp: STACK_BASE + 0x2020 }
+}
+
+pub const TID_PATTERNS: [&[u32]; 7] = [&[], &[1], &[1, 2], &[2, 2], &[1, 2, 7], &[5, 1, 5], &[1, 2, 2, 7]];
+pub const EXC_TIDS: [Option<u32>; 6] = [None, Some(1), Some(2), Some(5), Some(7), Some(99)];
+/// Breakpad info menu: absent, both, dump thread only, requesting thread only, flags off, dump == requesting
+pub const BP_MENU: [Option<(u32, u32, u32)>; 6] = [None, Some((3, 2, 1)), Some((1, 1, 7)), Some((2, 0, 2)), Some((0, 1, 2)), Some((3, 1, 1))];
+
+fn name_for_tid(t: u32) -> Option<String> {
+    if t == 2 {
+        None
+    } else {
+        Some(format!("thr-{t}"))
+    }
+}
+fn add_threads(m: &mut Model, tids: &[u32], tctx: u64) {
+    for (i, &t) in tids.iter().enumerate() {
+        let ok = !((tctx == 1 && i == 0) || (tctx == 2 && i == 1));
+        m.thread(t, ok);
+        if !m.thread_names.iter().any(|n| n.0 == t) {
+            if let Some(n) = name_for_tid(t) {
+                m.thread_names.push((t, n));
+            }
+        }
+    }
+}
+
+/// C14 structural space: thread-id pattern x exception thread x Breakpad info x exception
+/// context readability x thread context readability x CPU x OS id (full product); the exception
+/// record rotates through the OS's menu (thorough: 16 records per case).
+pub fn gen_index(tier: Tier) -> Gen {
+    gen_index_opts(true, tier.pick(1, 16))
+}
+/// `full_os`: the OS id is a factor of the product (else it rotates with the other digits);
+/// `nrec`: exception records per case.
+pub fn gen_index_opts(full_os: bool, nrec: u64) -> Gen {
+    let plats = all_platforms();
+    let menus: Vec<Vec<Rec>> = plats.iter().map(|p| exc_menu(p.1)).collect();
+    let mut radices = vec![12u64, 3, 3, 6, 6, 7];
+    radices.push(if full_os { 12 } else { 1 });
+    radices.push(nrec);
+    let len = crate::core::product(&radices);
+    let model = move |idx: u64| {
+        let d = crate::core::unrank(idx, &radices);
+        let (cpu, tctx, ectx, bp, etid, pat) = (ALL_CPUS[d[0] as usize], d[1], d[2], d[3], d[4], d[5]);
+        let pi = if full_os { d[6] as usize } else { (d[0] * 7 + d[1] + 3 * d[2] + d[3] + d[4] + 5 * d[5]) as usize % plats.len() };
+        let rk = d[7];
+        let mut m = Model::new(cpu, plats[pi].0);
+        add_threads(&mut m, TID_PATTERNS[pat as usize], tctx);
+        m.modules.push(app_module());
+        m.bp = BP_MENU[bp as usize].map(|(v, dt, rt)| BpM { validity: v, dump_tid: dt, req_tid: rt });
+        if let Some(t) = EXC_TIDS[etid as usize] {
+            let menu = &menus[pi];
+            let rec = menu[((idx / 7 + rk * 37) % menu.len() as u64) as usize];
+            let addr = if idx % 2 == 0 { 0x45 } else { 0xFFFF_FFFF_0000_0045 };
+            m.exc = Some(exc_of(rec, t, addr, ectx as u8));
+        }
+        m
+    };
+    Gen { name: "index", len, model: Arc::new(model) }
+}
+
+/// C14 crash reason / address space: every OS id x every CPU x the whole exception-record menu
+/// of that OS x {plain address, address with high bits set}.
+pub fn gen_reason(_tier: Tier) -> Gen {
+    let mut recs: Vec<(u32, Rec, u64)> = vec![];
+    for (pid, os) in all_platforms() {
+        for r in exc_menu(os) {
+            for a in [0x45u64, 0xFFFF_FFFF_0000_0045] {
+                recs.push((pid, r, a));
+            }
+        }
+    }
+    let len = recs.len() as u64 * 12;
+    let model = move |idx: u64| {
+        let cpu = ALL_CPUS[(idx % 12) as usize];
+        let (pid, rec, a) = recs[(idx / 12) as usize];
+        let mut m = Model::new(cpu, pid);
+        add_threads(&mut m, &[1], 0);
+        m.modules.push(app_module());
+        m.exc = Some(exc_of(rec, 1, a, 1));
+        m
+    };
+    Gen { name: "reason", len, model: Arc::new(model) }
+}
+
+/// C14 process-level space: misc-info flag subsets x Linux status stream x unloaded-module
+/// layouts x module lists x {x86, amd64, arm64} x thread lists (1, 4, 32 threads).
+pub fn gen_proc(_tier: Tier) -> Gen {
+    let radices = vec![5u64, 4, 4, 3, 3, 3];
+    let len = crate::core::product(&radices);
+    let model = move |idx: u64| {
+        use md::PlatformId as P;
+        let d = crate::core::unrank(idx, &radices);
+        let cpu = [CpuK::X86, CpuK::Amd64, CpuK::Arm64][d[4] as usize];
+        let pid = [P::Linux as u32, P::VER_PLATFORM_WIN32_NT as u32, P::MacOs as u32][((d[0] + d[1]) % 3) as usize];
+        let mut m = Model::new(cpu, pid);
+        let tids: Vec<u32> = match d[5] {
+            0 => vec![1],
+            1 => vec![1, 2, 2, 7],
+            _ => (0..32).map(|i| (i % 7) + 1).collect(),
+        };
+        add_threads(&mut m, &tids, 0);
+        m.threads[0].ip = 0x5000_1000; // outside every loaded module
+        m.misc = match d[0] {
+            0 => None,
+            1 => Some(MiscM { pid: Some(4242), create_time: None }),
+            2 => Some(MiscM { pid: None, create_time: Some(1262800000) }),
+            3 => Some(MiscM { pid: Some(7), create_time: Some(HEADER_TIME as u32 + 5) }),
+            _ => Some(MiscM { pid: None, create_time: None }),
+        };
+        m.status = match d[1] {
+            0 => None,
+            1 => Some(b"Name:\tx\nPid:\t1234\nPPid:\t1\n".to_vec()),
+            2 => Some(b"Name:\tx\nPid:\tabc\n".to_vec()),
+            _ => Some(b"Name:\tx\n".to_vec()),
+        };
+        let um = |b: u64, s: u32, n: &str| ModM { base: b, size: s, name: n.into() };
+        m.unloaded = match d[2] {
+            0 => vec![],
+            1 => vec![um(0x5000_0000, 0x10000, "old.dll")],
+            2 => vec![um(0x5000_0000, 0x10000, "old.dll"), um(0x5000_0800, 0x1000, "old.dll"), um(0x5000_1000, 0x10, "other.dll"), um(0x5000_1001, 0x10, "miss.dll"), um(0x5000_0000, 0x1000, "below.dll"), um(0x5000_0000, 0x10000, "old.dll")],
+            _ => vec![um(APP_BASE, 0x10000, "shadow.dll"), um(0x5000_0000, 0x2000, "old.dll")],
+        };
+        m.modules = match d[3] {
+            0 => vec![],
+            1 => vec![app_module()],
+            _ => vec![um(0x6000_0000, 0x1000, "z.dll"), app_module(), um(0x1000, 0x100, "/lib/a.so")],
+        };
+        let rec: Rec = (11, 1, 0, [0, 0, 0]);
+        m.exc = Some(exc_of(rec, 2, 0x1234, 1));
+        m
+    };
+    Gen { name: "proc", len, model: Arc::new(model) }
+}
+
+// ---------------------------------------------------------------------------------------------
+// C19 bit-flip space
+
+pub const TOP: u64 = u64::MAX - 0xfff; // first byte of the topmost page
+fn region_at(pos: u64, linux: bool) -> (u64, u64) {
+    match pos {
+        0 => (0, 0xfff),
+        1 => (0x10000, 0x10fff),
+        2 => (0x7fff_0000_0000, 0x7fff_0000_ffff),
+        // a MemoryInfo entry cannot express a region whose last byte is 2^64-1 (base + size must
+        // not overflow), the Linux maps can
+        _ => (TOP, if linux { u64::MAX } else { u64::MAX - 1 }),
+    }
+}
+const INFO_PERMS: [u32; 7] = [0x01, 0x02, 0x08, 0x10, 0x04, 0x20, 0x104];
+const LINUX_PERMS: [&str; 7] = ["", "r", "w", "x", "rw", "rx", "rwx"];
+
+pub fn bitflip_addresses(tier: Tier) -> Vec<u64> {
+    let all_bits: Vec<u32> = (0..64).collect();
+    let some_bits: Vec<u32> = vec![0, 3, 12, 20, 31, 32, 40, 46, 47, 48, 49, 56, 63];
+    let bits = if tier == Tier::Thorough { all_bits } else { some_bits };
+    let mut v: Vec<u64> = vec![0, 1, 8, 0x1000, 0x1fff, 0x2000, 0x2001, u64::MAX, (1 << 47) - 1, 1 << 47, (1 << 47) + 1, 1 << 48, 0xFFFF_7FFF_FFFF_FFFF, 0xFFFF_8000_0000_0000];
+    for pos in 0..4 {
+        let (a, z) = region_at(pos, true);
+        v.extend([a.wrapping_sub(1), a, z, z.wrapping_add(1), z.wrapping_sub(1)]);
+    }
+    for base in [0x10010u64, 0x7fff_0000_0010] {
+        for &bit in &bits {
+            v.push(base ^ (1 << bit));
+        }
+    }
+    for bit in [47u32, 48, 63, 12] {
+        v.push((TOP + 0x10) ^ (1 << bit));
+    }
+    v.push(0x10 ^ (1 << 48));
+    let mut out = vec![];
+    for a in v {
+        if !out.contains(&a) {
+            out.push(a);
+        }
+    }
+    out
+}
+
+/// exception kinds: (platform, code, flags, nparams, info0, address-in-parameter?)
+fn bitflip_exc(kind: u64, a: u64) -> (u32, Rec, u64) {
+    use md::PlatformId as P;
+    let (w, l, mac) = (P::VER_PLATFORM_WIN32_NT as u32, P::Linux as u32, P::MacOs as u32);
+    match kind {
+        0 => (w, (0xC000_0005, 0, 2, [0, a, 0]), 0x4000_2000),
+        1 => (w, (0xC000_0005, 0, 2, [1, a, 0]), 0x4000_2000),
+        2 => (w, (0xC000_0005, 0, 2, [8, a, 0]), 0x4000_2000),
+        3 => (w, (0xC000_0094, 0, 0, [0, 0, 0]), a),
+        4 => (l, (11, 1, 0, [0, 0, 0]), a),
+        5 => (l, (11, 0x80, 0, [0, 0, 0]), a),
+        6 => (mac, (1, 1, 0, [0, 0, 0]), a),
+        _ => (mac, (1, 13, 0, [0, 0, 0]), a),
+    }
+}
+pub const RSP_MENU: [u64; 6] = [0x10010 ^ (1 << 20), 0x0001_0000_0001_0010, 0x10010, 0x0000_8000_0001_0010, STACK_BASE, 0x7fff_0000_0010 ^ (1 << 3)];
+
+/// C19: examined address x memory map (0..3 regions, 7 permission rotations, MemoryInfoList or
+/// LinuxMaps) x exception kind x instruction at the crash site, for amd64; the same without the
+/// instruction factor for ppc64 (context, no disassembly) and mips64 (no context); a reduced
+/// product for arm64 / old arm64 / x86 / arm where nothing may be reported.
+pub fn gen_bitflip(tier: Tier) -> Gen {
+    let addrs = bitflip_addresses(tier);
+    let mut sets: Vec<Vec<u64>> = vec![vec![], vec![1], vec![1, 2], vec![0, 1], vec![1, 3], vec![0, 1, 2], vec![1, 2, 3]];
+    if tier == Tier::Thorough {
+        sets.extend([vec![0], vec![2], vec![3], vec![0, 3], vec![2, 3], vec![0, 1, 2, 3]]);
+    }
+    let n_instr: u64 = tier.pick(6, 9);
+    // (cpu, instruction kinds, permission rotations)
+    let blocks: Vec<(CpuK, u64, u64)> = vec![(CpuK::Amd64, n_instr, 7), (CpuK::Ppc64, 1, 7), (CpuK::Mips64, 1, 7), (CpuK::Arm64, 1, 1), (CpuK::Arm64Old, 1, 1), (CpuK::X86, 1, 1), (CpuK::Arm, 1, 1)];
+    let na = addrs.len() as u64;
+    let ns = sets.len() as u64;
+    let sizes: Vec<u64> = blocks.iter().map(|b| na * ns * b.2 * 2 * 8 * b.1).collect();
+    let len: u64 = sizes.iter().sum();
+    let model = move |mut idx: u64| {
+        let mut bi = 0;
+        while idx >= sizes[bi] {
+            idx -= sizes[bi];
+            bi += 1;
+        }
+        let (cpu, ni, nrot) = blocks[bi];
+        let d = crate::core::unrank(idx, &[na, 8, ni, 2, nrot, ns]);
+        let a = addrs[d[0] as usize];
+        let (pid, rec, exc_addr) = bitflip_exc(d[1], a);
+        let mut m = Model::new(cpu, pid);
+        add_threads(&mut m, &[1], 0);
+        m.threads[0].ip = 0x4000_2000;
+        m.modules.push(app_module());
+        let linux = d[3] == 1;
+        let regs: Vec<(u64, u64, usize)> = sets[d[5] as usize].iter().enumerate().map(|(j, &p)| (region_at(p, linux).0, region_at(p, linux).1, ((d[4] + 3 * j as u64) % 7) as usize)).collect();
+        m.maps = if regs.is_empty() {
+            MapsM::None
+        } else if linux {
+            MapsM::Linux(regs.iter().map(|r| (r.0, r.1, LINUX_PERMS[r.2])).collect())
+        } else {
+            MapsM::Info(regs.iter().map(|r| (r.0, r.1 - r.0 + 1, INFO_PERMS[r.2])).collect())
+        };
+        let mut x = exc_of(rec, 1, exc_addr, 1);
+        x.ctx_ip = 0x4000_2000;
+        x.ctx_sp = STACK_BASE;
+        // instruction at the crash site (amd64): none / nop / mov al,[rsp] with rsp from the menu / mov al,[rax] with rax = 0
+        let instr = d[2];
+        let code: Option<&[u8]> = match instr {
+            0 => None,
+            1 => Some(&[0x90]),
+            2..=4 | 6..=8 => Some(&[0x8a, 0x04, 0x24]),
+            _ => Some(&[0x8a, 0x00]),
+        };
+        if let (Some(c), CpuK::Amd64) = (code, cpu) {
+            let mut b = c.to_vec();
+            b.resize(16, 0x90);
+            m.code = Some((0x4000_2000, b));
+            match instr {
+                2..=4 => x.ctx_sp = RSP_MENU[(instr - 2) as usize],
+                6..=8 => x.ctx_sp = RSP_MENU[(instr - 3) as usize],
+                _ => {}
+            }
+        }
+        m.exc = Some(x);
+        m
+    };
+    Gen { name: "bitflip", len, model: Arc::new(model) }
+}
+
+// ---------------------------------------------------------------------------------------------
+// C15 hostile names
+
+pub fn hostile_names() -> Vec<String> {
+    let mut v: Vec<String> = vec![];
+    for c in 0u32..0x20 {
+        v.push(format!("x{}y", char::from_u32(c).unwrap()));
+    }
+    v.extend(
+        [
+            "a\"b", "a\\b", "\"", "\\", "\\\"", "a\\u0041b", "\u{7f}", "\u{1F600}\u{10348}", "\u{fffd}", "lossy\u{fffd}\u{fffd}x", "\u{2028}\u{2029}", "\u{feff}bom", "\u{ffff}", "</script><!--", "", "/", "..\\..\\x", "tab\there\nnewline\r\n", "{\"k\":[1,2]}", "nul\0\0", "é\u{301}ü",
+        ]
+        .iter()
+        .map(|s| s.to_string()),
+    );
+    v.push((0u32..0x20).map(|c| char::from_u32(c).unwrap()).collect::<String>() + "\"\\/\u{1F600}");
+    v.push("A".repeat(70_000) + "\"\\\u{1}");
+    v
+}
+
+/// where the name goes: 0 loaded module, 1 thread, 2 function, 3 source file, 4 unloaded module,
+/// 5 everywhere at once (function/file additionally carry invalid UTF-8 bytes)
+pub fn gen_names(_tier: Tier) -> Gen {
+    let names = hostile_names();
+    let nn = names.len() as u64;
+    let len = nn * 6 * 2;
+    let model = move |idx: u64| {
+        let d = crate::core::unrank(idx, &[nn, 6, 2]);
+        let name = &names[d[0] as usize];
+        let point = d[1];
+        let cpu = [CpuK::X86, CpuK::Amd64][d[2] as usize];
+        let mut m = Model::new(cpu, md::PlatformId::VER_PLATFORM_WIN32_NT as u32);
+        add_threads(&mut m, &[1, 2], 0);
+        m.threads[1].ip = 0x5000_1000;
+        let mut app = app_module();
+        if point == 0 || point == 5 {
+            app.name = name.clone();
+        }
+        if point == 1 || point == 5 {
+            m.thread_names = vec![(1, name.clone()), (2, format!("{name}{name}"))];
+        }
+        // symbol-file lines end at \n / \r: those two cannot be part of a name there
+        let line_safe: String = name.chars().filter(|c| *c != '\n' && *c != '\r').collect();
+        let mut func: Vec<u8> = b"plain_fn".to_vec();
+        let mut file: Vec<u8> = b"plain.c".to_vec();
+        if point == 2 || point == 5 {
+            func = line_safe.clone().into_bytes();
+        }
+        if point == 3 || point == 5 {
+            file = line_safe.clone().into_bytes();
+        }
+        if point == 5 {
+            // the symbol parser is strict about UTF-8; lossy decoding happens for the Linux text streams
+            let mut b = b"DISTRIB_ID=".to_vec();
+            b.extend_from_slice(line_safe.as_bytes());
+            b.extend_from_slice(b"\xff\xfe\"q\\\nDISTRIB_RELEASE=\xc3\x28\x80\nDISTRIB_CODENAME=");
+            b.extend_from_slice(line_safe.as_bytes());
+            b.extend_from_slice(b"\nDISTRIB_DESCRIPTION=\"\xf0\x9f\x98\"\n");
+            m.lsb = Some(b);
+        }
+        let mut sym: Vec<u8> = b"MODULE windows x86 000000000000000000000000000000000 app.pdb\nFILE 0 ".to_vec();
+        sym.extend_from_slice(&file);
+        sym.extend_from_slice(b"\nFUNC 1000 100 0 ");
+        sym.extend_from_slice(&func);
+        sym.extend_from_slice(b"\n1000 100 42 0\n");
+        m.syms = vec![(app.name.clone(), sym)];
+        m.modules.push(app);
+        m.unloaded.push(ModM { base: 0x5000_0000, size: 0x10000, name: if point == 4 || point == 5 { name.clone() } else { "old.dll".into() } });
+        m.exc = Some(exc_of((0xC000_0005, 0, 2, [1, 0x20800, 0]), 1, 0x45, 1));
+        m.exc.as_mut().unwrap().ctx_ip = APP_BASE + 0x1010;
+        m
+    };
+    Gen { name: "names", len, model: Arc::new(model) }
+}
+
+/// C15 edge: a (loaded | unloaded) module whose base + size is 2^64-1 (the largest the reader keeps) or 2^64.
+pub fn gen_edge_modules(_tier: Tier) -> Gen {
+    let model = move |idx: u64| {
+        let d = crate::core::unrank(idx, &[2, 2, 2]);
+        let cpu = [CpuK::Amd64, CpuK::X86][d[2] as usize];
+        let mut m = Model::new(cpu, md::PlatformId::Linux as u32);
+        add_threads(&mut m, &[1], 0);
+        m.modules.push(app_module());
+        let edge = ModM { base: u64::MAX - 0xfff, size: if d[1] == 0 { 0xfff } else { 0x1000 }, name: "top.so".into() };
+        if d[0] == 0 {
+            m.modules.push(edge);
+        } else {
+            m.unloaded.push(edge);
+        }
+        m
+    };
+    Gen { name: "edge-modules", len: 8, model: Arc::new(model) }
+}
+
+// =============================================================================================
+// independent strict JSON parser (RFC 8259), so that escapes are not judged by the writer's crate
+
+#[derive(Clone, Debug, PartialEq)]
+pub enum J {
+    Null,
+    Bool(bool),
+    /// the number's text
+    Num(String),
+    Str(String),
+    Arr(Vec<J>),
+    Obj(Vec<(String, J)>),
+}
+impl J {
+    pub fn get(&self, k: &str) -> &J {
+        static NULL: J = J::Null;
+        match self {
+            J::Obj(v) => v.iter().find(|x| x.0 == k).map(|x| &x.1).unwrap_or(&NULL),
+            _ => &NULL,
+        }
+    }
+    pub fn has(&self, k: &str) -> bool {
+        matches!(self, J::Obj(v) if v.iter().any(|x| x.0 == k))
+    }
+    pub fn arr(&self) -> &[J] {
+        match self {
+            J::Arr(v) => v,
+            _ => &[],
+        }
+    }
+    pub fn str(&self) -> Option<&str> {
+        match self {
+            J::Str(s) => Some(s),
+            _ => None,
+        }
+    }
+    pub fn uint(&self) -> Option<u64> {
+        match self {
+            J::Num(s) => s.parse::<u64>().ok(),
+            _ => None,
+        }
+    }
+    pub fn is_null(&self) -> bool {
+        matches!(self, J::Null)
+    }
+    /// value of a `0x...` string
+    pub fn hex(&self) -> Option<u64> {
+        let s = self.str()?.strip_prefix("0x")?;
+        if s.is_empty() || s.len() > 16 && s.trim_start_matches('0').len() > 16 {
+            return None;
+        }
+        u64::from_str_radix(s, 16).ok()
+    }
+}
+
+struct P<'a> {
+    s: &'a [u8],
+    i: usize,
+    depth: u32,
+}
+impl P<'_> {
+    fn err<T>(&self, m: &str) -> Result<T, String> {
+        Err(format!("{m} at byte {}", self.i))
+    }
+    fn ws(&mut self) {
+        while self.i < self.s.len() && matches!(self.s[self.i], b' ' | b'\t' | b'\n' | b'\r') {
+            self.i += 1;
+        }
+    }
+    fn lit(&mut self, w: &str, v: J) -> Result<J, String> {
+        if self.s[self.i..].starts_with(w.as_bytes()) {
+            self.i += w.len();
+            Ok(v)
+        } else {
+            self.err("bad literal")
+        }
+    }
+    fn hex4(&mut self) -> Result<u32, String> {
+        if self.i + 4 > self.s.len() {
+            return self.err("short \\u escape");
+        }
+        let mut v = 0u32;
+        for k in 0..4 {
+            let c = self.s[self.i + k];
+            let d = match c {
+                b'0'..=b'9' => c - b'0',
+                b'a'..=b'f' => c - b'a' + 10,
+                b'A'..=b'F' => c - b'A' + 10,
+                _ => return self.err("bad hex digit in \\u escape"),
+            };
+            v = v * 16 + d as u32;
+        }
+        self.i += 4;
+        Ok(v)
+    }
+    fn string(&mut self) -> Result<String, String> {
+        // at opening quote
+        self.i += 1;
+        let mut out: Vec<u8> = vec![];
+        loop {
+            if self.i >= self.s.len() {
+                return self.err("unterminated string");
+            }
+            let c = self.s[self.i];
+            match c {
+                b'"' => {
+                    self.i += 1;
+                    break;
+                }
+                0..=0x1f => return self.err("raw control character in string"),
+                b'\\' => {
+                    self.i += 1;
+                    if self.i >= self.s.len() {
+                        return self.err("dangling backslash");
+                    }
+                    let e = self.s[self.i];
+                    self.i += 1;
+                    let ch: char = match e {
+                        b'"' => '"',
+                        b'\\' => '\\',
+                        b'/' => '/',
+                        b'b' => '\u{8}',
+                        b'f' => '\u{c}',
+                        b'n' => '\n',
+                        b'r' => '\r',
+                        b't' => '\t',
+                        b'u' => {
+                            let u = self.hex4()?;
+                            if (0xD800..0xDC00).contains(&u) {
+                                if !self.s[self.i..].starts_with(b"\\u") {
+                                    return self.err("unpaired high surrogate escape");
+                                }
+                                self.i += 2;
+                                let lo = self.hex4()?;
+                                if !(0xDC00..0xE000).contains(&lo) {
+                                    return self.err("high surrogate not followed by low surrogate");
+                                }
+                                char::from_u32(0x10000 + ((u - 0xD800) << 10) + (lo - 0xDC00)).unwrap()
+                            } else if (0xDC00..0xE000).contains(&u) {
+                                return self.err("unpaired low surrogate escape");
+                            } else {
+                                char::from_u32(u).unwrap()
+                            }
+                        }
+                        _ => return self.err("unknown escape"),
+                    };
+                    let mut b = [0u8; 4];
+                    out.extend_from_slice(ch.encode_utf8(&mut b).as_bytes());
+                }
+                _ => {
+                    out.push(c);
+                    self.i += 1;
+                }
+            }
+        }
+        // the whole input was checked to be UTF-8 and escapes produce scalar values
+        String::from_utf8(out).map_err(|_| "string is not UTF-8".to_string())
+    }
+    fn number(&mut self) -> Result<J, String> {
+        let st = self.i;
+        let dig = |p: &mut Self| {
+            let s = p.i;
+            while p.i < p.s.len() && p.s[p.i].is_ascii_digit() {
+                p.i += 1;
+            }
+            p.i - s
+        };
+        if self.s[self.i] == b'-' {
+            self.i += 1;
+        }
+        if self.i < self.s.len() && self.s[self.i] == b'0' {
+            self.i += 1;
+        } else if dig(self) == 0 {
+            return self.err("bad number");
+        }
+        if self.i < self.s.len() && self.s[self.i] == b'.' {
+            self.i += 1;
+            if dig(self) == 0 {
+                return self.err("bad fraction");
+            }
+        }
+        if self.i < self.s.len() && matches!(self.s[self.i], b'e' | b'E') {
+            self.i += 1;
+            if self.i < self.s.len() && matches!(self.s[self.i], b'+' | b'-') {
+                self.i += 1;
+            }
+            if dig(self) == 0 {
+                return self.err("bad exponent");
+            }
+        }
+        Ok(J::Num(String::from_utf8(self.s[st..self.i].to_vec()).unwrap()))
+    }
+    fn value(&mut self) -> Result<J, String> {
+        self.ws();
+        if self.i >= self.s.len() {
+            return self.err("unexpected end");
+        }
+        self.depth += 1;
+        if self.depth > 200 {
+            return self.err("too deep");
+        }
+        let r = match self.s[self.i] {
+            b'n' => self.lit("null", J::Null),
+            b't' => self.lit("true", J::Bool(true)),
+            b'f' => self.lit("false", J::Bool(false)),
+            b'"' => self.string().map(J::Str),
+            b'-' | b'0'..=b'9' => self.number(),
+            b'[' => {
+                self.i += 1;
+                let mut v = vec![];
+                self.ws();
+                if self.i < self.s.len() && self.s[self.i] == b']' {
+                    self.i += 1;
+                    Ok(J::Arr(v))
+                } else {
+                    loop {
+                        v.push(self.value()?);
+                        self.ws();
+                        match self.s.get(self.i) {
+                            Some(b',') => self.i += 1,
+                            Some(b']') => {
+                                self.i += 1;
+                                break Ok(J::Arr(v));
+                            }
+                            _ => break self.err("expected , or ]"),
+                        }
+                    }
+                }
+            }
+            b'{' => {
+                self.i += 1;
+                let mut v: Vec<(String, J)> = vec![];
+                self.ws();
+                if self.i < self.s.len() && self.s[self.i] == b'}' {
+                    self.i += 1;
+                    Ok(J::Obj(v))
+                } else {
+                    loop {
+                        self.ws();
+                        if self.s.get(self.i) != Some(&b'"') {
+                            break self.err("expected object key");
+                        }
+                        let k = self.string()?;
+                        if v.iter().any(|x| x.0 == k) {
+                            break self.err("duplicate object key");
+                        }
+                        self.ws();
+                        if self.s.get(self.i) != Some(&b':') {
+                            break self.err("expected :");
+                        }
+                        self.i += 1;
+                        let val = self.value()?;
+                        v.push((k, val));
+                        self.ws();
+                        match self.s.get(self.i) {
+                            Some(b',') => self.i += 1,
+                            Some(b'}') => {
+                                self.i += 1;
+                                break Ok(J::Obj(v));
+                            }
+                            _ => break self.err("expected , or }"),
+                        }
+                    }
+                }
+            }
+            _ => self.err("unexpected character"),
+        };
+        self.depth -= 1;
+        r
+    }
+}
+pub fn parse_json(bytes: &[u8]) -> Result<J, String> {
+    if std::str::from_utf8(bytes).is_err() {
+        return Err("output is not valid UTF-8".into());
+    }
+    let mut p = P { s: bytes, i: 0, depth: 0 };
+    let v = p.value()?;
+    p.ws();
+    if p.i != bytes.len() {
+        return p.err("trailing bytes after the document");
+    }
+    Ok(v)
+}
+/// structural equality with what serde_json reads from the same bytes
+pub fn same_as_serde(j: &J, v: &Value) -> bool {
+    match (j, v) {
+        (J::Null, Value::Null) => true,
+        (J::Bool(a), Value::Bool(b)) => a == b,
+        (J::Str(a), Value::String(b)) => a == b,
+        (J::Num(a), Value::Number(n)) => {
+            if let (Ok(x), Some(y)) = (a.parse::<u64>(), n.as_u64()) {
+                x == y
+            } else if let (Ok(x), Some(y)) = (a.parse::<i64>(), n.as_i64()) {
+                x == y
+            } else {
+                a.parse::<f64>().ok() == n.as_f64()
+            }
+        }
+        (J::Arr(a), Value::Array(b)) => a.len() == b.len() && a.iter().zip(b).all(|(x, y)| same_as_serde(x, y)),
+        (J::Obj(a), Value::Object(b)) => a.len() == b.len() && a.iter().all(|(k, x)| b.get(k).is_some_and(|y| same_as_serde(x, y))),
+        _ => false,
+    }
+}
+
+// =============================================================================================
+// json-schema.md, mechanised. Every field may be null or absent ("the most important rule");
+// a field name the document does not list is reported (allow-list: `proc_limits`, which the
+// implementation emits and the document forgot).
+
+#[derive(Clone, Debug)]
+pub enum Ty {
+    Uint,
+    Float,
+    Bool,
+    Str,
+    /// `0x` + lowercase hex fitting u64
+    Hex,
+    /// hexstring padded to the crashing platform's pointer width
+    Addr,
+    Enum(Vec<&'static str>),
+    /// one of the listed OS names or a hexstring
+    OsName,
+    Arr(Box<Ty>),
+    Obj(Vec<(&'static str, Ty)>),
+    Map(Box<Ty>),
+    Any,
+}
+fn obj(v: Vec<(&'static str, Ty)>) -> Ty {
+    Ty::Obj(v)
+}
+fn arr(t: Ty) -> Ty {
+    Ty::Arr(Box::new(t))
+}
+pub fn schema() -> &'static Ty {
+    static S: OnceLock<Ty> = OnceLock::new();
+    S.get_or_init(|| {
+        use Ty::*;
+        let frame = || {
+            obj(vec![
+                ("frame", Uint),
+                ("trust", Enum(vec!["context", "cfi", "frame_pointer", "scan"])),
+                ("registers", Map(Box::new(Addr))),
+                ("offset", Addr),
+                ("module", Str),
+                ("module_offset", Addr),
+                ("unloaded_modules", arr(obj(vec![("module", Str), ("offsets", arr(Addr))]))),
+                ("inlines", arr(obj(vec![("function", Str), ("file", Str), ("line", Uint)]))),
+                ("function", Str),
+                ("function_offset", Addr),
+                ("file", Str),
+                ("line", Uint),
+                ("missing_symbols", Bool),
+            ])
+        };
+        let thread = |extra: bool| {
+            let mut f = vec![("thread_name", Str), ("thread_id", Uint), ("last_error_value", Str), ("frame_count", Uint), ("frames", arr(frame()))];
+            if extra {
+                f.push(("threads_index", Uint));
+            }
+            obj(f)
+        };
+        obj(vec![
+            ("status", Str),
+            ("pid", Uint),
+            (
+                "crash_info",
+                obj(vec![
+                    ("type", Str),
+                    ("address", Addr),
+                    ("adjusted_address", obj(vec![("kind", Enum(vec!["non-canonical", "null-pointer"])), ("address", Addr), ("offset", Addr)])),
+                    ("instruction", Str),
+                    ("memory_accesses", arr(obj(vec![("address", Addr), ("size", Uint), ("is_likely_guard_page", Bool), ("access_type", Enum(vec!["read", "write", "readwrite"]))]))),
+                    ("instruction_pointer_update", obj(vec![("address", Addr), ("is_likely_guard_page", Bool)])),
+                    (
+                        "possible_bit_flips",
+                        arr(obj(vec![
+                            ("address", Addr),
+                            ("details", obj(vec![("was_non_canonical", Bool), ("is_null", Bool), ("was_low", Bool), ("poison_registers", Bool), ("nearby_registers", Uint)])),
+                            ("confidence", Float),
+                            ("source_register", Str),
+                        ])),
+                    ),
+                    (
+                        "crash_inconsistencies",
+                        arr(Enum(vec![
+                            "int_div_by_zero_not_possible",
+                            "priv_instruction_crash_without_priv_instruction",
+                            "non_canonical_address_falsely_reported",
+                            "access_violation_when_access_allowed",
+                            "crashing_access_not_found_in_memory_accesses",
+                        ])),
+                    ),
+                    ("crashing_thread", Uint),
+                    ("assertion", Str),
+                ]),
+            ),
+            (
+                "system_info",
+                obj(vec![
+                    ("os", OsName),
+                    ("os_ver", Str),
+                    // the document lists 8 names and says enumerations are not exhaustive; "mips" and
+                    // "mips64" are the two further names `Cpu` can print
+                    ("cpu_arch", Enum(vec!["x86", "amd64", "ppc", "ppc64", "sparc", "arm", "arm64", "unknown", "mips", "mips64"])),
+                    ("cpu_info", Str),
+                    ("cpu_count", Uint),
+                    ("cpu_microcode_version", Hex),
+                ]),
+            ),
+            ("linux_memory_map_count", Uint),
+            ("thread_count", Uint),
+            ("threads", arr(thread(false))),
+            ("crashing_thread", thread(true)),
+            ("main_module", Uint),
+            ("modules_contains_cert_info", Bool),
+            (
+                "modules",
+                arr(obj(vec![
+                    ("base_addr", Addr),
+                    ("end_addr", Addr),
+                    ("debug_file", Str),
+                    ("debug_id", Str),
+                    ("filename", Str),
+                    ("code_id", Str),
+                    ("version", Str),
+                    ("cert_subject", Str),
+                    ("missing_symbols", Bool),
+                    ("loaded_symbols", Bool),
+                    ("corrupt_symbols", Bool),
+                    ("symbol_url", Str),
+                ])),
+            ),
+            ("unloaded_modules", arr(obj(vec![("base_addr", Addr), ("end_addr", Addr), ("code_id", Str), ("filename", Str), ("cert_subject", Str)]))),
+            ("handles", arr(obj(vec![("handle", Uint), ("type_name", Str), ("object_name", Str)]))),
+            ("lsb_release", obj(vec![("id", Str), ("release", Str), ("codename", Str), ("description", Str)])),
+            (
+                "mac_crash_info",
+                obj(vec![
+                    ("num_records", Uint),
+                    ("records", arr(obj(vec![("thread", Addr), ("dialog_mode", Addr), ("abort_cause", Addr), ("module", Str), ("message", Str), ("signature_string", Str), ("backtrace", Str), ("message2", Str)]))),
+                ]),
+            ),
+            ("mac_boot_args", Str),
+            ("soft_errors", arr(Any)),
+            ("proc_limits", Any),
+        ])
+    })
+}
+
+fn is_hexstring(s: &str) -> bool {
+    match s.strip_prefix("0x") {
+        Some(h) => !h.is_empty() && h.bytes().all(|c| c.is_ascii_digit() || (b'a'..=b'f').contains(&c)) && h.trim_start_matches('0').len() <= 16,
+        None => false,
+    }
+}
+pub const OS_NAMES: [&str; 8] = ["Windows NT", "Mac OS X", "iOS", "Linux", "Solaris", "Android", "PS3", "NaCl"];
+
+/// Check `j` against `ty`; problems are pushed as (signature, human sentence). `bits` is the
+/// pointer width implied by `system_info.cpu_arch` (None: unknown, only hexstring-ness is required).
+pub fn check_schema(ty: &Ty, j: &J, path: &str, bits: Option<u32>, out: &mut Vec<(String, String)>) {
+    if j.is_null() {
+        return;
+    }
+    let mut bad = |why: &str, j: &J| {
+        let mut shown = format!("{j:?}");
+        if shown.len() > 120 {
+            shown = shown.chars().take(120).collect();
+        }
+        out.push((format!("c15:{path}:{why}"), format!("JSON field {path} = {shown}: {why}")));
+    };
+    match ty {
+        Ty::Any => {}
+        Ty::Uint => {
+            if j.uint().is_none() {
+                bad("not-an-unsigned-integer", j)
+            }
+        }
+        Ty::Float => match j {
+            J::Num(s) if s.parse::<f64>().is_ok_and(|f| f.is_finite()) => {}
+            _ => bad("not-a-number", j),
+        },
+        Ty::Bool => {
+            if !matches!(j, J::Bool(_)) {
+                bad("not-a-bool", j)
+            }
+        }
+        Ty::Str => {
+            if j.str().is_none() {
+                bad("not-a-string", j)
+            }
+        }
+        Ty::Hex => {
+            if !j.str().is_some_and(is_hexstring) {
+                bad("not-a-hexstring", j)
+            }
+        }
+        Ty::Addr => match j.str() {
+            Some(s) if is_hexstring(s) => {
+                let need = match bits {
+                    Some(32) => 8,
+                    Some(64) => 16,
+                    _ => 1,
+                };
+                if s.len() - 2 < need {
+                    bad("hexstring-not-padded-to-pointer-width", j)
+                }
+            }
+            _ => bad("not-a-hexstring", j),
+        },
+        Ty::Enum(vs) => {
+            if !j.str().is_some_and(|s| vs.contains(&s)) {
+                bad("not-in-enumeration", j)
+            }
+        }
+        Ty::OsName => {
+            if !j.str().is_some_and(|s| OS_NAMES.contains(&s) || is_hexstring(s)) {
+                bad("not-hexstring-or-known", j)
+            }
+        }
+        Ty::Arr(t) => match j {
+            J::Arr(v) => {
+                let p = format!("{path}[]");
+                for x in v {
+                    check_schema(t, x, &p, bits, out);
+                }
+            }
+            _ => bad("not-an-array", j),
+        },
+        Ty::Map(t) => match j {
+            J::Obj(v) => {
+                let p = format!("{path}.*");
+                for (_, x) in v {
+                    check_schema(t, x, &p, bits, out);
+                }
+            }
+            _ => bad("not-an-object", j),
+        },
+        Ty::Obj(fields) => match j {
+            J::Obj(v) => {
+                for (k, x) in v {
+                    match fields.iter().find(|f| f.0 == k) {
+                        Some(f) => {
+                            let p = if path.is_empty() { k.clone() } else { format!("{path}.{k}") };
+                            check_schema(&f.1, x, &p, bits, out);
+                        }
+                        None => {
+                            let k: String = k.chars().take(40).collect();
+                            out.push((format!("c15:{path}:undocumented-field:{k}"), format!("JSON object {path} has a field `{k}` the schema document does not list")));
+                        }
+                    }
+                }
+            }
+            _ => bad("not-an-object", j),
+        },
+    }
+}
+
+/// Everything C15 states about one JSON rendering, given the state it was rendered from:
+/// validity (UTF-8, strict grammar, agreement with serde_json), schema, redundant fields, and
+/// that every string/number the state holds comes back unchanged through the independent parser.
+pub fn check_json(st: &ProcessState, bytes: &[u8], out: &mut Vec<(String, String)>) -> Option<J> {
+    let j = match parse_json(bytes) {
+        Ok(j) => j,
+        Err(e) => {
+            out.push(("c15:document:not-valid-json".into(), format!("print_json output is not strict JSON: {e}")));
+            return None;
+        }
+    };
+    match serde_json::from_slice::<Value>(bytes) {
+        Ok(v) => {
+            if !same_as_serde(&j, &v) {
+                out.push(("c15:document:parsers-disagree".into(), "independent parser and serde_json read different documents".into()));
+            }
+        }
+        Err(e) => out.push(("c15:document:serde-rejects".into(), format!("serde_json rejects the output: {e}"))),
+    }
+    let mut fail = |sig: &str, what: String| out.push((format!("c15:{sig}"), what));
+    let arch = j.get("system_info").get("cpu_arch").str().unwrap_or("");
+    let bits = match arch {
+        "x86" | "ppc" | "sparc" | "arm" | "mips" => Some(32),
+        "amd64" | "ppc64" | "arm64" | "mips64" => Some(64),
+        _ => None,
+    };
+    // the state says which CPU it is; the JSON name must be that CPU's
+    if arch != st.system_info.cpu.to_string() {
+        fail("system_info.cpu_arch:differs-from-state", format!("cpu_arch {arch:?} but the state's cpu is {}", st.system_info.cpu));
+    }
+    let mut sch = vec![];
+    check_schema(schema(), &j, "", bits, &mut sch);
+    out.extend(sch);
+    let mut fail = |sig: &str, what: String| out.push((format!("c15:{sig}"), what));
+    let hexw = |v: u64| match bits {
+        Some(32) => format!("{v:#010x}"),
+        _ => format!("{v:#018x}"),
+    };
+    // ---- threads
+    let threads = j.get("threads").arr();
+    if j.get("thread_count").uint() != Some(threads.len() as u64) || threads.len() != st.threads.len() {
+        fail("thread_count:differs-from-array-length", format!("thread_count {:?}, threads[] has {}, state has {}", j.get("thread_count"), threads.len(), st.threads.len()));
+    }
+    let jmods = j.get("modules").arr();
+    for (ti, (t, s)) in threads.iter().zip(&st.threads).enumerate() {
+        let frames = t.get("frames").arr();
+        if t.get("frame_count").uint() != Some(frames.len() as u64) || frames.len() != s.frames.len() {
+            fail("threads[].frame_count:differs-from-array-length", format!("thread {ti}: frame_count {:?}, frames[] has {}, state has {}", t.get("frame_count"), frames.len(), s.frames.len()));
+        }
+        if t.get("thread_id").uint() != Some(s.thread_id as u64) {
+            fail("threads[].thread_id:differs-from-state", format!("thread {ti}: thread_id {:?} vs {}", t.get("thread_id"), s.thread_id));
+        }
+        if t.get("thread_name").str() != s.thread_name.as_deref() {
+            fail("threads[].thread_name:differs-from-state", format!("thread {ti}: thread_name does not decode to the state's name"));
+        }
+        for (k, (f, sf)) in frames.iter().zip(&s.frames).enumerate() {
+            if f.get("frame").uint() != Some(k as u64) {
+                fail("threads[].frames[].frame:not-its-position", format!("thread {ti} frame {k}: frame = {:?}", f.get("frame")));
+            }
+            if f.get("offset").str() != Some(hexw(sf.instruction).as_str()) {
+                fail("threads[].frames[].offset:differs-from-state", format!("thread {ti} frame {k}: offset {:?} vs instruction {:#x}", f.get("offset"), sf.instruction));
+            }
+            if f.get("function").str() != sf.function_name.as_deref() || f.get("file").str() != sf.source_file_name.as_deref() {
+                fail("threads[].frames[].function:differs-from-state", format!("thread {ti} frame {k}: function/file do not decode to the state's strings"));
+            }
+            if f.get("line").uint() != sf.source_line.map(|l| l as u64) {
+                fail("threads[].frames[].line:differs-from-state", format!("thread {ti} frame {k}: line {:?} vs {:?}", f.get("line"), sf.source_line));
+            }
+            if f.get("trust").str() != Some(sf.trust.as_str()) {
+                fail("threads[].frames[].trust:differs-from-state", format!("thread {ti} frame {k}: trust {:?}", f.get("trust")));
+            }
+            match f.get("missing_symbols") {
+                J::Bool(b) if *b == sf.function_name.is_none() => {}
+                other => fail("threads[].frames[].missing_symbols:not-redundant-with-function", format!("thread {ti} frame {k}: missing_symbols {other:?}, function {:?}", sf.function_name.is_some())),
+            }
+            let off = f.get("offset").hex();
+            // module_offset == offset - base_addr of the module of that name which covers offset
+            match (f.get("module").str(), f.get("module_offset").hex(), off) {
+                (Some(name), Some(mo), Some(off)) => {
+                    let ok = jmods.iter().any(|m| m.get("filename").str() == Some(name) && m.get("base_addr").hex().is_some_and(|b| b <= off && off - b == mo) && m.get("end_addr").hex().is_some_and(|e| off < e));
+                    if !ok {
+                        fail("threads[].frames[].module_offset:not-offset-minus-base", format!("thread {ti} frame {k}: module {name:?} offset {off:#x} module_offset {mo:#x} matches no entry of modules[]"));
+                    }
+                }
+                (None, None, _) => {
+                    if sf.module.is_some() {
+                        fail("threads[].frames[].module:missing", format!("thread {ti} frame {k}: the state has a module, the JSON has none"));
+                    }
+                }
+                _ => fail("threads[].frames[].module_offset:inconsistent-presence", format!("thread {ti} frame {k}: module {:?} module_offset {:?}", f.get("module"), f.get("module_offset"))),
+            }
+            // function_offset == offset - function base
+            let want = sf.function_base.map(|b| sf.instruction.wrapping_sub(b));
+            if f.get("function_offset").hex() != want || (want.is_some() && f.get("function_offset").str() != Some(hexw(want.unwrap()).as_str())) {
+                fail("threads[].frames[].function_offset:not-offset-minus-base", format!("thread {ti} frame {k}: function_offset {:?}, expected {want:x?}", f.get("function_offset")));
+            }
+            // unloaded modules: names decode, offsets == offset - base of some unloaded module of that name
+            let ju = f.get("unloaded_modules").arr();
+            if ju.len() != sf.unloaded_modules.len() {
+                fail("threads[].frames[].unloaded_modules:differs-from-state", format!("thread {ti} frame {k}: {} entries vs {}", ju.len(), sf.unloaded_modules.len()));
+            }
+            for (u, (sname, soffs)) in ju.iter().zip(&sf.unloaded_modules) {
+                let offs: Vec<Option<u64>> = u.get("offsets").arr().iter().map(|o| o.hex()).collect();
+                let want: Vec<Option<u64>> = soffs.iter().map(|o| Some(*o)).collect();
+                if u.get("module").str() != Some(sname.as_str()) || offs != want {
+                    fail("threads[].frames[].unloaded_modules:differs-from-state", format!("thread {ti} frame {k}: unloaded module entry differs from the state"));
+                }
+                for o in soffs {
+                    let ok = j.get("unloaded_modules").arr().iter().any(|m| m.get("filename").str() == Some(sname.as_str()) && m.get("base_addr").hex().is_some_and(|b| off.is_some_and(|a| a >= b && a - b == *o)));
+                    if !ok {
+                        fail("threads[].frames[].unloaded_modules[].offsets:not-offset-minus-base", format!("thread {ti} frame {k}: offset {o:#x} of {sname:?} matches no unloaded_modules[] entry"));
+                    }
+                }
+            }
+        }
+    }
+    // ---- crashing thread copy
+    let ct = j.get("crashing_thread");
+    let want_ct = st.requesting_thread.filter(|&i| !st.threads[i].frames.is_empty());
+    match (want_ct, ct) {
+        (None, J::Null) => {}
+        (Some(i), J::Obj(fields)) => {
+            if ct.get("threads_index").uint() != Some(i as u64) {
+                fail("crashing_thread.threads_index:not-the-requesting-thread", format!("threads_index {:?}, requesting thread is {i}", ct.get("threads_index")));
+            }
+            let mut copy: Vec<(String, J)> = fields.iter().filter(|f| f.0 != "threads_index").cloned().collect();
+            let mut regs = J::Null;
+            for f in copy.iter_mut() {
+                if f.0 == "frames" {
+                    if let J::Arr(fr) = &mut f.1 {
+                        if let Some(J::Obj(f0)) = fr.first_mut() {
+                            if let Some(p) = f0.iter().position(|x| x.0 == "registers") {
+                                regs = f0.remove(p).1;
+                            }
+                        }
+                    }
+                }
+            }
+            let same = |a: &J, b: &J| -> bool {
+                // object field order is not part of JSON equality
+                fn norm(j: &J) -> J {
+                    match j {
+                        J::Obj(v) => {
+                            let mut v: Vec<(String, J)> = v.iter().map(|(k, x)| (k.clone(), norm(x))).collect();
+                            v.sort_by(|a, b| a.0.cmp(&b.0));
+                            J::Obj(v)
+                        }
+                        J::Arr(v) => J::Arr(v.iter().map(norm).collect()),
+                        o => o.clone(),
+                    }
+                }
+                norm(a) == norm(b)
+            };
+            if threads.get(i).is_none_or(|t| !same(&J::Obj(copy), t)) {
+                fail("crashing_thread:not-a-copy-of-the-indexed-thread", format!("crashing_thread minus threads_index/registers differs from threads[{i}]"));
+            }
+            // registers: the valid general purpose registers of frame 0
+            let f0 = &st.threads[i].frames[0];
+            let mut want: Vec<(String, String)> = f0.context.general_purpose_registers().iter().filter(|r| f0.context.get_register(r).is_some()).map(|r| (r.to_string(), f0.context.format_register(r))).collect();
+            want.sort();
+            let mut got: Vec<(String, String)> = match &regs {
+                J::Obj(v) => v.iter().map(|(k, x)| (k.clone(), x.str().unwrap_or("?").to_string())).collect(),
+                _ => vec![("<registers missing>".into(), String::new())],
+            };
+            got.sort();
+            if got != want {
+                fail("crashing_thread.frames[0].registers:differs-from-context", format!("registers {got:?} vs context {want:?}"));
+            }
+            if j.get("crash_info").get("crashing_thread").uint() != Some(i as u64) {
+                fail("crash_info.crashing_thread:differs-from-threads_index", format!("crash_info.crashing_thread {:?} vs {i}", j.get("crash_info").get("crashing_thread")));
+            }
+        }
+        (w, c) => fail("crashing_thread:presence", format!("requesting thread with frames: {w:?}; crashing_thread is {}", if c.is_null() { "absent" } else { "present" })),
+    }
+    // ---- modules mirror the module list
+    let smods: Vec<&minidump::MinidumpModule> = st.modules.iter().collect();
+    if jmods.len() != smods.len() {
+        fail("modules:differs-from-module-list", format!("{} entries vs {} modules", jmods.len(), smods.len()));
+    }
+    for (k, (jm, sm)) in jmods.iter().zip(&smods).enumerate() {
+        use minidump::Module;
+        let base = sm.raw.base_of_image;
+        let end = base.wrapping_add(sm.raw.size_of_image as u64);
+        let fname = minidump_common::utils::basename(&sm.name);
+        if jm.get("base_addr").str() != Some(hexw(base).as_str()) || jm.get("end_addr").str() != Some(hexw(end).as_str()) || jm.get("filename").str() != Some(fname) {
+            fail("modules[]:differs-from-module-list", format!("modules[{k}] base/end/filename differ from the module list entry"));
+        }
+        if jm.get("debug_id").str() != Some(sm.debug_identifier().unwrap_or_default().breakpad().to_string().as_str()) && st.symbol_stats.get(fname).and_then(|s| s.extra_debug_info.as_ref()).is_none() {
+            fail("modules[].debug_id:differs-from-module-list", format!("modules[{k}] debug_id {:?}", jm.get("debug_id")));
+        }
+    }
+    let sun: Vec<&minidump::MinidumpUnloadedModule> = st.unloaded_modules.iter().collect();
+    let jun = j.get("unloaded_modules").arr();
+    if jun.len() != sun.len() {
+        fail("unloaded_modules:differs-from-module-list", format!("{} entries vs {}", jun.len(), sun.len()));
+    }
+    for (k, (jm, sm)) in jun.iter().zip(&sun).enumerate() {
+        let base = sm.raw.base_of_image;
+        let end = base.wrapping_add(sm.raw.size_of_image as u64);
+        if jm.get("base_addr").str() != Some(hexw(base).as_str()) || jm.get("end_addr").str() != Some(hexw(end).as_str()) || jm.get("filename").str() != Some(sm.name.as_str()) {
+            fail("unloaded_modules[]:differs-from-module-list", format!("unloaded_modules[{k}] base/end/filename differ from the list entry"));
+        }
+    }
+    // ---- scalars
+    if j.get("pid").uint() != st.process_id.map(|p| p as u64) {
+        fail("pid:differs-from-state", format!("pid {:?} vs {:?}", j.get("pid"), st.process_id));
+    }
+    let ci = j.get("crash_info");
+    match &st.exception_info {
+        Some(info) => {
+            if ci.get("type").str() != Some(info.reason.to_string().as_str()) {
+                fail("crash_info.type:differs-from-state", format!("type {:?} vs {}", ci.get("type"), info.reason));
+            }
+            if ci.get("address").str() != Some(hexw(info.address.0).as_str()) {
+                fail("crash_info.address:differs-from-state", format!("address {:?} vs {:#x}", ci.get("address"), info.address.0));
+            }
+            if ci.get("possible_bit_flips").arr().len() != info.possible_bit_flips.len() {
+                fail("crash_info.possible_bit_flips:differs-from-state", format!("{} entries vs {}", ci.get("possible_bit_flips").arr().len(), info.possible_bit_flips.len()));
+            }
+            for (jb, sb) in ci.get("possible_bit_flips").arr().iter().zip(&info.possible_bit_flips) {
+                if jb.get("address").str() != Some(hexw(sb.address.0).as_str()) || jb.get("source_register").str() != sb.source_register {
+                    fail("crash_info.possible_bit_flips[]:differs-from-state", "bit flip address/source_register differ from the state".into());
+                }
+            }
+            let (kind, val) = match &info.adjusted_address {
+                None => (None, None),
+                Some(minidump_processor::AdjustedAddress::NonCanonical(a)) => (Some("non-canonical"), Some(("address", a.0))),
+                Some(minidump_processor::AdjustedAddress::NullPointerWithOffset(a)) => (Some("null-pointer"), Some(("offset", a.0))),
+            };
+            let aa = ci.get("adjusted_address");
+            if aa.get("kind").str() != kind || val.is_some_and(|(f, v)| aa.get(f).str() != Some(hexw(v).as_str())) {
+                fail("crash_info.adjusted_address:differs-from-state", format!("adjusted_address {aa:?} vs {:?}", info.adjusted_address));
+            }
+            if ci.get("instruction").str() != info.instruction_str.as_deref() {
+                fail("crash_info.instruction:differs-from-state", "instruction string differs".into());
+            }
+            if ci.get("memory_accesses").arr().len() != info.memory_access_list.as_ref().map(|l| l.iter().count()).unwrap_or(0) {
+                fail("crash_info.memory_accesses:differs-from-state", "memory access count differs".into());
+            }
+        }
+        None => {
+            if !ci.get("type").is_null() || !ci.get("address").is_null() {
+                fail("crash_info.type:present-without-exception", "crash_info.type/address present although the state has no exception".into());
+            }
+        }
+    }
+    match (&st.linux_standard_base, j.get("lsb_release")) {
+        (None, J::Null) => {}
+        (Some(l), o @ J::Obj(_)) => {
+            if o.get("id").str() != Some(l.id.as_str()) || o.get("release").str() != Some(l.release.as_str()) || o.get("codename").str() != Some(l.codename.as_str()) || o.get("description").str() != Some(l.description.as_str()) {
+                fail("lsb_release:differs-from-state", "lsb_release strings do not decode to the state's strings".into());
+            }
+        }
+        (a, _) => fail("lsb_release:presence", format!("state has lsb info: {}", a.is_some())),
+    }
+    if j.get("status").str() != Some("OK") {
+        fail("status:not-OK", format!("status {:?}", j.get("status")));
+    }
+    Some(j)
+}
